@@ -399,7 +399,7 @@ class TokenStream(Harness):
 
     def expected_classes(self, var):
         if var["prefix"]:
-            if var["prefix"] == ["not", "cds", "("] or (var["prefix"] == ["minscore", "("] and var["len"] == 5):
+            if var["prefix"] == ["not", "cds", "("] or (var["prefix"][0] in ("minscore", "minimum") and var["len"] == 5):
                 return {"reject"}       # no continuation of exactly this many tokens completes an accepted rule
             return {"reject"} if var["prefix"][0] == "not" and var["len"] < 5 else {"accept", "reject"}
         return {"reject"} if var["len"] == 2 else {"accept", "reject"}
